@@ -492,6 +492,32 @@ def verify_instance(key, label, timeout_ms=20000, which=None, seed=0, crosscheck
     except EngineError as e:
         out['error'] = f'EngineError: {e}'
         out['trace'] = traceback.format_exc()[-1500:]
+        # the proof could not be generated (contract does not bind / outside the subset): the clause-level
+        # run-time contract is still searched for a failing input, so that a real violation is not hidden
+        # behind a lost proof route (bounded; DESIGN.md 3.8)
+        try:
+            from .crosscheck import native_search
+            from .replay import make_replay
+            inst = dict(instances(c))[label]
+            task = Task(c, inst, label)
+            for kd, cl in [('post', cl) for cl in c.ensures] + [('raises', None)]:
+                src = cl.src if cl is not None else ''
+                srcs = native_search(task, kd, src, seed, tries=300)
+                if srcs is not None:
+                    class _O:
+                        pass
+                    fo = _O()
+                    lab = cl.label if cl is not None else 'raises'
+                    fo.name, fo.kind, fo.note = f'{c.qualname}#{kd}:{lab}@native', kd, src
+                    out['obligations'].append({
+                        'name': f'{task.name}::{fo.name}', 'short': fo.name, 'kind': kd, 'role': 'clause',
+                        'result': 'sat', 'expect': 'unsat', 'ok': False, 'time': 0.0, 'backend': 'native-search',
+                        'line': None, 'note': src, 'props': list(cl.props) if cl is not None else [],
+                        'replay_src': make_replay(task, fo, None, concrete_src=srcs),
+                        'found_by': 'bounded native search (proof not generated: ' + str(e)[:120] + ')'})
+                    break
+        except Exception:  # noqa
+            pass
     except Exception as e:  # noqa
         out['error'] = f'{type(e).__name__}: {e}'
         out['trace'] = traceback.format_exc()[-2500:]
